@@ -30,20 +30,32 @@ package types
 //@   assigns nothing
 //@   ensures r != nil
 
+// The abstract world (scopes, atoms, effect log) is threaded through everything that can run
+// lisp code; these names are shared with the evaluator's specification (package lisp).
+//@ spec abstract evalOut(x MalType, env EnvType, w World) Outcome
+//@ spec abstract applyOut(f MalType, a []MalType, w World) Outcome
+//@ spec abstract fnOut(fn int, a []MalType, w World) Outcome
+
 //@ field types.MalFunc.Eval(ctx, ast, env) (res, err)
 //@   requires validEnvVal(env)
 //@   panics never
+//@   changes world
+//@   ensures out(res, err, world()) == evalOut(ast, env, old(world())) @assume
 
 //@ field types.MalFunc.GenEnv(outer, binds, exprs) (r, err)
 //@   requires validEnvVal(outer)
 //@   panics never
+//@   changes world
 //@   ensures err != nil || validEnvVal(r)
+//@   ensures r == bindR(old(world()), outer, binds, exprs) && err == bindE(old(world()), outer, binds, exprs) && world() == bindW(old(world()), outer, binds, exprs) @assume
 
 // builtins may change atoms, scopes and the outside world, but cannot reach a reader's
 // private token cursor (unexported type of package reader)
 //@ field types.Func.Fn(ctx, args) (res, err)
 //@   panics never
 //@   preserves comp:cell:reader_tokenReader
+//@   changes world
+//@   ensures out(res, err, world()) == fnOut(self, args, old(world())) @assume
 
 //@ func GetSlice(seq) (r, err)
 //@   panics never
@@ -52,8 +64,14 @@ package types
 //@   ensures implies(is(seq, List), err == nil && r == seq.(List).Val)
 //@   ensures implies(is(seq, Vector), err == nil && r == seq.(Vector).Val)
 
+// Apply: a closure binds its parameters in a new child of its defining scope and evaluates
+// its body there; a builtin is called with the arguments; anything else is an error.
+//@ spec applyStep(f MalType, a []MalType, w World, o Outcome) bool = ite(is(f, MalFunc), ite(bindE(w, f.(MalFunc).Env, f.(MalFunc).Params, val(List{Val: a, Cursor: f.(MalFunc).Cursor})) != nil, o == out(nil, bindE(w, f.(MalFunc).Env, f.(MalFunc).Params, val(List{Val: a, Cursor: f.(MalFunc).Cursor})), bindW(w, f.(MalFunc).Env, f.(MalFunc).Params, val(List{Val: a, Cursor: f.(MalFunc).Cursor}))), o == evalOut(f.(MalFunc).Exp, bindR(w, f.(MalFunc).Env, f.(MalFunc).Params, val(List{Val: a, Cursor: f.(MalFunc).Cursor})), bindW(w, f.(MalFunc).Env, f.(MalFunc).Params, val(List{Val: a, Cursor: f.(MalFunc).Cursor})))), ite(is(f, Func), o == fnOut(f.(Func).Fn, a, w), implies(!is(f, `func([]MalType) (MalType, error)`), outV(o) == nil && outE(o) != nil && outW(o) == w)))
 //@ func Apply(ctx, f, a) (res, err)
 //@   panics never
+//@   changes world
+//@   ensures applyStep(f, a, old(world()), out(res, err, world())) @C01
+//@   ensures out(res, err, world()) == applyOut(f, a, old(world())) @assume
 
 // ---- structural equality (C14) -------------------------------------------------------
 // EQ is the structural equality of the property statement; EQdef is its one-step
